@@ -329,7 +329,10 @@ def coq_run_many(ctx, files, timeout=900, jobs=12):
             else:
                 outf.close()
                 with open(opath) as f:
-                    res[name] = (p.returncode == 0, f.read())
+                    txt = f.read()
+                if p.returncode == 124:
+                    txt = "TIMEOUT (coqc time limit)\n" + txt
+                res[name] = (p.returncode == 0, txt)
         running = still
         if running:
             time.sleep(0.05)
